@@ -36,6 +36,16 @@ pub fn run(tier: Tier, reg: &[VT]) -> Report {
 	let mut rep = Report::new("C13", tier);
 	let b = if tier.thorough() { domain::Bound::thorough() } else { domain::Bound::quick() };
 	let types: Vec<&VT> = reg.iter().filter(|v| relevant(v)).collect();
+	// Ask every type for its declared lengths once, sequentially, in registry order, before anything runs in
+	// parallel: whatever an implementation carries across calls (a cached constant, a function-local static
+	// shared by all instantiations of a generic definition) is then fixed by a deterministic history in which
+	// the second instantiation of every generic definition (`<u8>`) is asked before the first (`<u16>`).
+	for vt in &types {
+		if let Some(mel) = vt.mel {
+			let _ = guarded(mel);
+		}
+		let _ = guarded(|| (vt.fixed_size)());
+	}
 	let acc = par(&types, |vt, acc| {
 		heartbeat(vt.name);
 		let shape = (vt.shape)();
